@@ -105,8 +105,14 @@ var verifC02 struct {
 	lastPost []byte
 	gotPost  bool
 	served   *verifC02Doc
+	gate     *verifC02Gate // if set: the next JWKS download blocks after the document has been chosen
 
 	m *Manager
+}
+
+type verifC02Gate struct {
+	arrived chan struct{}
+	release chan struct{}
 }
 
 func verifC02JWKS(ec *ecdsa.PrivateKey, r *rsa.PrivateKey) string {
@@ -224,7 +230,13 @@ func verifC02Init() {
 	w.jwksSrv = httptest.NewServer(http.HandlerFunc(func(rw http.ResponseWriter, r *http.Request) {
 		w.mu.Lock()
 		d := w.served
+		g := w.gate
+		w.gate = nil
 		w.mu.Unlock()
+		if g != nil { // a slow download: the document is already chosen, the answer is held back
+			close(g.arrived)
+			<-g.release
+		}
 		if d == nil || d.drop {
 			if hj, ok := rw.(http.Hijacker); ok {
 				if c, _, err := hj.Hijack(); err == nil {
@@ -312,6 +324,80 @@ func verifC02Exec(op string) string {
 		w.m.RefreshJWTJWKS()
 		return "ok"
 	case "auth":
+		return verifC02DoAuth(f) + " ks=" + verifC02KS()
+	case "racerefresh":
+		// racerefresh <id> <vend> <parses> <doc> <auth columns…>: Authenticate runs in a goroutine; if it starts a
+		// JWKS download, the download is held at the server, the endpoint switches to <doc>, RefreshJWTJWKS is
+		// called while the download is in flight, then the download is released. With pullJWTJWKS holding the
+		// Manager mutex this linearises as  authenticate ; serve <doc> ; refresh.
+		docB := w.docs[f[4]]
+		af := append([]string{"auth"}, f[5:]...)
+		g := &verifC02Gate{arrived: make(chan struct{}), release: make(chan struct{})}
+		w.mu.Lock()
+		w.gate = g
+		w.mu.Unlock()
+		done := make(chan string, 1)
+		go func() {
+			defer func() {
+				if r := recover(); r != nil {
+					done <- "panic " + strings.ReplaceAll(fmt.Sprint(r), "\n", " ")
+				}
+			}()
+			done <- verifC02DoAuth(af)
+		}()
+		var res string
+		select {
+		case res = <-done: // no download was started (excluded request / keys not due)
+			w.mu.Lock()
+			w.gate = nil
+			w.served = docB
+			w.mu.Unlock()
+			w.m.RefreshJWTJWKS()
+		case <-g.arrived:
+			w.mu.Lock()
+			w.served = docB
+			w.mu.Unlock()
+			rdone := make(chan struct{})
+			go func() { w.m.RefreshJWTJWKS(); close(rdone) }()
+			if w.m.mutex.TryRLock() {
+				// the download does not hold the mutex: let the refresh complete first (worst interleaving)
+				w.m.mutex.RUnlock()
+				select {
+				case <-rdone:
+				case <-time.After(2 * time.Second):
+				}
+			}
+			close(g.release)
+			res = <-done
+			<-rdone
+		}
+		return res + " ks=" + verifC02KS()
+	}
+	return "bad-op"
+}
+
+func verifC02KS() string {
+	w := &verifC02
+	w.m.mutex.RLock()
+	defer w.m.mutex.RUnlock()
+	due := "0"
+	if w.m.jwksLastRefresh.IsZero() {
+		due = "1"
+	}
+	loaded := "-"
+	if w.m.jwtKeyFunc != nil {
+		if ks, ok := w.finger[verifC02Fingerprint(w.m.jwtKeyFunc)]; ok {
+			loaded = fmt.Sprint(ks)
+		} else {
+			loaded = "unknown"
+		}
+	}
+	return due + ":" + loaded
+}
+
+func verifC02DoAuth(f []string) string {
+	w := &verifC02
+	{
 		var ip net.IP
 		if b := verifutil.UnHex(f[9]); len(b) != 0 {
 			ip = net.IP(b)
@@ -394,23 +480,8 @@ func verifC02Exec(op string) string {
 			sb.WriteString(strings.Join([]string{fld(in.IP), fld(in.User), fld(in.Password), fld(in.Token), fld(in.Action),
 				fld(in.Path), fld(in.Protocol), idS, fld(in.Query), fld(in.UserAgent)}, ","))
 		}
-		// JWKS state of the manager
-		due := "0"
-		if w.m.jwksLastRefresh.IsZero() {
-			due = "1"
-		}
-		loaded := "-"
-		if w.m.jwtKeyFunc != nil {
-			if ks, ok := w.finger[verifC02Fingerprint(w.m.jwtKeyFunc)]; ok {
-				loaded = fmt.Sprint(ks)
-			} else {
-				loaded = "unknown"
-			}
-		}
-		sb.WriteString(" ks=" + due + ":" + loaded)
 		return sb.String()
 	}
-	return "bad-op"
 }
 
 // ---------- tokens ----------
@@ -953,7 +1024,21 @@ func verifC02Rotation(r *verifutil.Rand, thorough bool) []string {
 		return &o
 	}
 
-	ops = append(ops, verifC02ServeOp(home[r.Intn(len(home))]), verifC02AuthOp(c, q))
+	// a download in flight while the endpoint rotates and a refresh is requested
+	race := func(doc string, q *verifC02Req) string {
+		return "racerefresh" + strings.TrimPrefix(verifC02ServeOp(doc), "serve") + strings.TrimPrefix(verifC02AuthOp(c, q), "auth")
+	}
+	ops = append(ops, verifC02ServeOp(home[r.Intn(len(home))]))
+	if r.Chance(1, 3) {
+		// the very first download is slow; meanwhile the key is rotated away and a refresh is requested:
+		// afterwards the old token must be judged against the new document
+		ops = append(ops, race(away[r.Intn(len(away))], q), verifC02AuthOp(c, q))
+		if r.Bool() {
+			ops = append(ops, verifC02AuthOp(c, otherAP()))
+		}
+		ops = append(ops, verifC02ServeOp(home[r.Intn(len(home))]), "refresh")
+	}
+	ops = append(ops, verifC02AuthOp(c, q))
 	if r.Bool() {
 		ops = append(ops, verifC02AuthOp(c, q)) // same token again, nothing changed
 	}
@@ -968,6 +1053,12 @@ func verifC02Rotation(r *verifutil.Rand, thorough bool) []string {
 		docs := away
 		if k%2 == 1 || r.Chance(1, 5) {
 			docs = home
+		}
+		if r.Chance(1, 4) {
+			// refresh, then a slow download of the current document during which the endpoint changes and
+			// another refresh arrives
+			ops = append(ops, "refresh", race(docs[r.Intn(len(docs))], q), verifC02AuthOp(c, q))
+			continue
 		}
 		ops = append(ops, verifC02ServeOp(docs[r.Intn(len(docs))]))
 		if r.Chance(1, 3) { // not refreshed yet: the loaded keys legitimately keep being used
@@ -1059,6 +1150,9 @@ func verifC02Gen(r *verifutil.Rand, i int, thorough bool) []string {
 
 func verifC02Class(op, impl string) string {
 	f := strings.Fields(op)
+	if f[0] == "racerefresh" {
+		return "racerefresh/" + strings.Fields(impl + " - - - -")[3]
+	}
 	if f[0] != "auth" {
 		if f[0] == "serve" {
 			return "serve/" + f[4]
@@ -1087,6 +1181,6 @@ func TestVerifC02(t *testing.T) {
 	verifutil.Main(t, &verifutil.Harness{
 		ID: "C02", Exec: verifC02Exec, Gen: verifC02Gen, Quick: 1000, Thorough: 12000,
 		Class:      verifC02Class,
-		NonTrivial: func(op, impl string) bool { return strings.HasPrefix(op, "auth") },
+		NonTrivial: func(op, impl string) bool { return strings.HasPrefix(op, "auth") || strings.HasPrefix(op, "racerefresh") },
 	})
 }
